@@ -494,7 +494,7 @@ func runDot(c *vrt.Ctx) {
 		// the validators on the generated text (AST re-print, text meaning)
 		report(c, t, "dot.Parse", enc, 0, chk.Dot(enc))
 		report(c, t, "dot.Unmarshal", enc, 0, chk.DotUnmarshal(enc))
-		if c.WantSample() && i%499 == 3 {
+		if c.WantSample() && i == 3 {
 			c.Sample(map[string]any{"codec": "dot", "shape": shape, "kind": kind, "text": clipS(string(enc), 400)})
 		}
 	})
